@@ -184,6 +184,68 @@ func c10sched(c *core.Ctx) {
 			vsched.Logf("ok")
 		}})
 	}
+	// (3) a connection attempt that never gets established: the client sends its CONNECT
+	// and is gone before the CONNACK can be written.  Whatever was stored for that
+	// client identifier is untouched by it (CleanSession=0), and a clean attempt of
+	// that kind leaves nothing behind
+	for _, v := range []struct {
+		name     string
+		stored   bool // a persistent session with a subscription exists
+		newClean bool
+	}{{"stored session, persistent attempt", true, false}, {"no stored session, persistent attempt", false, false}, {"no stored session, clean attempt", false, true}} {
+		v := v
+		scs = append(scs, scen{"CONNECT whose sender is gone before the CONNACK (" + v.name + ")", func() {
+			t := newTD()
+			p := t.connect("P", 0, 65535, false)
+			if v.stored {
+				x1, _ := connectAs(t, "X1", "x", false)
+				if x1 == nil {
+					return
+				}
+				subscribeAs(t, x1, 1, "a", 1)
+				x1.Send(&refcodec.Packet{Type: refcodec.DISCONNECT})
+				t.w.Settle()
+			}
+			x2, err := t.w.Dial("X2")
+			if err != nil || vsched.Failed() {
+				return
+			}
+			vsched.Mark()
+			x2.Conn.Write(refcodec.Encode(ConnectPacket(ConnectOpts{ClientID: "x", Clean: v.newClean, KeepAlive: 65535})))
+			x2.Cut()
+			t.w.Settle()
+			x3, ack := connectAs(t, "X3", "x", false)
+			if x3 == nil {
+				return
+			}
+			// the attempt may or may not count as a connection (it does when the CONNACK was
+			// written before the broker noticed the end); a persistent one keeps or creates state,
+			// it never destroys any
+			if v.stored && !ack.SessionPresent {
+				vsched.Failf("a persistent session with a subscription was stored; after a connection attempt that ended before its CONNACK the next CleanSession=0 CONNECT got SessionPresent=0")
+				return
+			}
+			if v.newClean && ack.SessionPresent {
+				vsched.Failf("a CleanSession=1 connection attempt that ended before its CONNACK left a session behind (SessionPresent=1 afterwards)")
+				return
+			}
+			p.rc.Send(&refcodec.Packet{Type: refcodec.PUBLISH, Topic: []byte("a"), QoS: 1, ID: 78, Payload: []byte("probe")})
+			t.w.Settle()
+			n, _ := count(x3.Take(), "a", "probe")
+			want := 0
+			if v.stored {
+				want = 1
+			}
+			if n != want {
+				vsched.Failf("%s: the next connection received a probe on the stored filter %d times, expected %d", v.name, n, want)
+				return
+			}
+			if t.badStream() {
+				return
+			}
+			vsched.Logf("ok")
+		}})
+	}
 	for _, sc := range scs {
 		if c.Expired() || c.HasViolation() {
 			return
